@@ -131,11 +131,21 @@ def trashed_files_to_restore(input_read,  # type: InputRead
         sequences = parse_indexes(input_read.user_input,
                                   len(input_read.trashed_files))
         file_to_restore = [input_read.trashed_files[index] for index in
-                           sequences.all_indexes()]
+                           unique(sequences.all_indexes())]
         selected_files = SelectedFiles(file_to_restore, input_read.overwrite)
         return Right(selected_files)
     except InvalidEntry as e:
         return Left(Die("Invalid entry: %s" % e))
+
+
+def unique(indexes):
+    # an index given twice (e.g. "1,0-2") denotes the entry once: restoring it
+    # a second time can only fail and abort the rest of the selection
+    seen = set()
+    for index in indexes:
+        if index not in seen:
+            seen.add(index)
+            yield index
 
 
 class InvalidEntry(Exception):
